@@ -1541,7 +1541,7 @@ def walk(
                 while (sent := (yield self)) is not None:
                     recurse_ = sent
 
-                if recurse_:
+                if recurse_ and (ast := self.a):  # could have been replaced or deleted in yield
                     if stack := syntax_ordered_children(ast):  # children may have changed
                         if not back:
                             stack.reverse()
@@ -1623,7 +1623,7 @@ def walk(
                 while (sent := (yield yield_)) is not None:
                     recurse_ = sent
 
-                if recurse_:
+                if recurse_ and (ast := self.a):  # could have been replaced or deleted in yield
                     stack.append(ast)
 
                     self_ =  False  # enter and leave is now processed in the loop so we don't want to go through here again
